@@ -138,6 +138,9 @@ mod proto_ext;
 
 #[macro_use]
 mod macros;
+#[cfg(prometheus_verif)]
+#[doc(hidden)]
+pub mod verif_sync;
 mod atomic64;
 mod auto_flush;
 mod counter;
